@@ -800,7 +800,7 @@ func c04Init(mc.Tier) (int, error) {
 
 func init() {
 	register(&mc.Check{
-		ID: "C04", Title: "OCSP yields OK only on an authentic, current Good answer by an authorised signer", DesignRef: "DESIGN.md §4 C04",
+		ID: "C04", Extra: clockPass("C04", "C04T"), Title: "OCSP yields OK only on an authentic, current Good answer by an authorised signer", DesignRef: "DESIGN.md §4 C04",
 		Rule: fmt.Sprintf("Every assignment of one of %d responder behaviours (authentic Good/Revoked/Unknown by issuer or delegated responder, invalidity dates around the signing time, unauthorised signers, wrong serial, stale, malformed, erroring) "+
 			"to the 1..3 responder URLs actually contacted (full product for <=2 URLs; 3 URLs: <=2 deviations from 'transport error' in quick, full product in thorough), x serial classes forcing GET / POST, x RSA/EC issuer, x with/without signing time, x both entry points; "+
 			"the verdict is judged against the ground truth of the contacted behaviours and every request is decoded and checked.", len(c04Behaviours)),
